@@ -310,11 +310,14 @@ Definition do_penalize (p : params) (s : state) (typ : ptype) (val : validator) 
     Ok (add_negwd (add_balance s1 (p_penalty_to p) total) (if 0 <? amount then 0 else amount))).
 
 (* processEvidences / processDoubleSignV5 for a pool of resolved double-sign
-   evidences (round, signer); only those of the parent round are acted on *)
-Fixpoint process_evidences (p : params) (s : state) (evs : list (Z * Z)) (seen : list Z) : res state :=
+   evidences (round, signer, the signatures are for different hashes); one vote
+   listed twice is no offence (0c3d6f7); only the evidences of the parent round
+   (the block's own number - 1, ec9154c) are acted on *)
+Fixpoint process_evidences (p : params) (s : state) (evs : list (Z * Z * bool)) (seen : list Z) : res state :=
   match evs with
   | [] => Ok s
-  | (round, signer) :: r =>
+  | (round, signer, differ) :: r =>
+    if negb differ then process_evidences p s r seen else
     if negb (round =? s_number s - 1) then process_evidences p s r seen else
     if signer =? 0 then process_evidences p s r seen else
     if sl_mem seen signer then process_evidences p s r seen else
@@ -661,7 +664,7 @@ Definition finalize_block (s : state) : state :=
 Record block := mkBlock {
   b_proposer : Z;
   b_txs : list tx;
-  b_evs : list (Z * Z)      (* the node's evidence pool when the block is sealed: (round, signer) *)
+  b_evs : list (Z * Z * bool) (* the node's evidence pool when the block is sealed: (round, signer, different hashes) *)
 }.
 
 (* new StateDB for the block: core.StakingRootForNewBlock gives an empty staking
